@@ -3,6 +3,7 @@ package verifsim
 import (
 	"context"
 	"fmt"
+	"runtime"
 	"sort"
 	"strings"
 	"sync"
@@ -350,6 +351,41 @@ func runC11Service(r *simkit.Run) {
 			}
 		}
 	}
+	// Concurrent component report placed inside the status delivery path: at the k-th event delivered for an instance
+	// of a receiver shared across signals (which includes the replay to a late-attached instance) a goroutine of the
+	// component reports RecoverableError through the shared host while delivery is still in progress. The scheduler
+	// goroutine yields a bounded number of times so that the reporter gets as far as it can (it cannot finish: the
+	// delivery path holds the status reporter's lock) and then carries on.
+	trigger := -1
+	if tp.Chance(1, 2) {
+		trigger = tp.Draw(5)
+	}
+	seenShared := 0
+	var conc []*simkit.Task
+	w.onStatus = func(k string, _ st) {
+		if !strings.HasPrefix(k, "receiver:shr/") {
+			return
+		}
+		seenShared++
+		if seenShared-1 != trigger {
+			return
+		}
+		id := k[len("receiver:"):strings.Index(k, "@")]
+		w.mu.Lock()
+		h := w.hosts["receiver:"+id+":*"]
+		w.mu.Unlock()
+		if h == nil {
+			return
+		}
+		r.Count("fault.concurrent_report_during_delivery")
+		r.Nontrivial = true
+		conc = append(conc, simkit.Go("concurrent-report", func(*simkit.Task) {
+			componentstatus.ReportStatus(h, componentstatus.NewEvent(sRec))
+		}))
+		for i := 0; i < 300; i++ {
+			runtime.Gosched()
+		}
+	}
 	failStart := ""
 	if tp.Chance(1, 4) {
 		failStart = keys[tp.Draw(len(keys))]
@@ -380,12 +416,19 @@ func runC11Service(r *simkit.Run) {
 			r.Nontrivial = true
 		}
 	}
+	for _, t := range conc {
+		for i := 0; i < 1000 && !t.Done(); i++ {
+			runtime.Gosched()
+		}
+	}
+	beforeShutdown := len(w.StatusLog())
 	_ = srv.Shutdown(context.Background())
 	r.Events++
 	// oracle: per instance, the sequence delivered to the watcher is a path of the diagram
 	per := map[string][]st{}
+	lastBefore := map[string]st{} // status of each instance when Shutdown was called
 	var order []string
-	for _, line := range w.StatusLog() {
+	for li, line := range w.StatusLog() {
 		parts := strings.SplitN(line, "|", 3)
 		var s st
 		for _, c := range allStatuses {
@@ -397,6 +440,9 @@ func runC11Service(r *simkit.Run) {
 			order = append(order, parts[0])
 		}
 		per[parts[0]] = append(per[parts[0]], s)
+		if li < beforeShutdown {
+			lastBefore[parts[0]] = s
+		}
 	}
 	sort.Strings(order)
 	for _, k := range order {
@@ -413,6 +459,15 @@ func runC11Service(r *simkit.Run) {
 	}
 	for id, ks := range shared {
 		for _, k := range ks[1:] {
+			if len(conc) > 0 {
+				// With a component report racing the start of a late instance the per-instance automatic OK may fall
+				// before the report for one instance and be skipped for the other: the sequences may differ, but every
+				// instance must have received the component's report, i.e. they agree on the status reached.
+				if lastBefore[k] != lastBefore[ks[0]] {
+					r.Failf("shared", "instances-disagree-on-status", "shared component %s after a concurrent component report: instance %s is in %s (saw %v) but instance %s is in %s (saw %v)", id, ks[0], lastBefore[ks[0]], per[ks[0]], k, lastBefore[k], per[k])
+				}
+				continue
+			}
 			if fmt.Sprint(per[k]) != fmt.Sprint(per[ks[0]]) {
 				// an instance attached later is brought up to date by a replay of the last events (a ring of 5; the stub
 				// components report at most 3 statuses from Start), so every instance sees the same sequence
